@@ -244,7 +244,7 @@ pub fn run(ctx: &mut Ctx) {
         }
     }
     ctx.stage("random");
-    let cases = ctx.pick(24_000u32, 500_000u32) / ctx.nshards;
+    let cases = ctx.pick(300_000u32, 2_000_000u32) / ctx.nshards;
     ctx.run_prop(mux::mux_history_bits(4, 12, 0.0, 50), cases, |ctx, c| oracle(ctx, c));
 }
 
